@@ -153,6 +153,12 @@ class SymAlg:
             z = sp.expand(d) == 0
             if z:
                 return op == "eq"
+        # sign known from the atoms' own assumptions (a square-root atom of a generic radicand is positive)
+        sg = 1 if d.is_positive else -1 if d.is_negative else 0 if d.is_zero else None
+        if sg is not None:
+            r = {"eq": sg == 0, "ne": sg != 0, "lt": sg < 0, "le": sg <= 0, "gt": sg > 0, "ge": sg >= 0}[op]
+            STATE.trace.append((op, d, r))
+            return r
         if STATE.decide is None:
             raise SymbolicBranch("%s %s 0 with no branch policy" % (d, op))
         r = STATE.decide(op, d)
